@@ -9,7 +9,6 @@
 #include "h4v_err.h"
 #include "h4v_hp.h"
 #include "hdfalloc.c" /* the real HDmemfill */
-#include "hfiledd_dir_ghost.h" /* ghosts named by loops/hfiledd_dir.loops (same real file) */
 #include "hfiledd.c"
 
 H4V_DECL_ND(int32);
